@@ -189,3 +189,54 @@ func VerifC08_History() {
 	}
 	zz.Reach("C08.history")
 }
+
+// VerifC08_AcrossJail: downtime jailing, further votes while jailed, unjail, more votes: after every step the stored
+// counter equals the number of missed entries in the stored window, and the validator is punished again only when the
+// window (which was cleared by the jailing) fills up again.
+func VerifC08_AcrossJail() {
+	e := VNewEnv(2)
+	w := int64(2 + zz.Choice("window", 2))
+	minSigned := vMinSigned("minsigned")
+	vSetWindowParams(e, w, minSigned)
+	e.Fund(e.Addrs[0], sdk.NewInt(50000000))
+	e.Stake(0, sdk.NewInt(10000000))
+	maxMissed := w - vRoundHalfEven(minSigned, w)
+	zz.Assume(maxMissed < w) // otherwise nobody is ever jailed
+	check := func(tag string) {
+		info, _ := e.K.GetValidatorSigningInfo(e.Ctx, e.Addrs[0])
+		n, _ := vCountMissed(e, e.Addrs[0], w)
+		zz.Assert("C08.jail."+tag+".counter-equals-stored-window", info.MissedBlocksCounter == n)
+	}
+	// miss every block until jailed
+	jailedAt := -1
+	for step := 0; step < int(2*w)+2; step++ {
+		e.Advance(time.Second, 1)
+		e.K.handleValidatorSignature(e.Ctx, []byte(e.Addrs[0]), 10, false)
+		check("filling")
+		if v, _ := e.Val(0); v.Jailed {
+			jailedAt = step
+			break
+		}
+	}
+	zz.Assert("C08.jail.eventually-jailed", jailedAt >= 0)
+	// votes that still arrive while jailed (validator update delay)
+	for k := 0; k < 1+zz.Choice("while_jailed", 2); k++ {
+		e.Advance(time.Second, 1)
+		e.K.handleValidatorSignature(e.Ctx, []byte(e.Addrs[0]), 10, zz.Bool("signed_while_jailed"))
+		check("while-jailed")
+	}
+	stakeAfterFirst := sdk.ZeroInt()
+	if v, ok := e.Val(0); ok {
+		stakeAfterFirst = v.StakedTokens
+	}
+	e.Advance(e.K.DowntimeJailDuration(e.Ctx), 1)
+	e.K.UnjailValidator(e.Ctx, e.Addrs[0])
+	check("after-unjail")
+	for k := 0; k < int(w)+1; k++ {
+		e.Advance(time.Second, 1)
+		e.K.handleValidatorSignature(e.Ctx, []byte(e.Addrs[0]), 10, zz.Bool("signed_after"))
+		check("after")
+	}
+	_ = stakeAfterFirst
+	zz.Reach("C08.across-jail")
+}
